@@ -85,7 +85,7 @@ Record attrs := {
                             Ident: it is the Sel of a selector expression *)
   a_ty : option ty;      (* SelectorExpr: TypeOf(X); CompositeLit / Ident: TypeOf(node); CallExpr: TypeOf(Args[0]);
                             ValueSpec / Field: TypeOf(Type); FuncDecl: TypeOf(Recv.List[0].Type) *)
-  a_obj : option obj;    (* Ident: ObjectOf(ident); SelectorExpr: ObjectOf(Sel); FuncDecl: Defs[Recv.List[0].Names[0]] *)
+  a_obj : option obj;    (* Ident: Uses[ident], else ObjectOf(ident) (the name of an embedded field: the type it uses); SelectorExpr: the same for Sel; FuncDecl: Defs[Recv.List[0].Names[0]] *)
   a_str2 : string;       (* FuncDecl: ExtractReceiverType(Recv.List[0].Type) *)
   a_str3 : option string (* FuncDecl: Recv.List[0].Names[0].Name when the receiver is named *)
 }.
